@@ -712,12 +712,19 @@ func (m *Monitors) podCreated(ev *Event, p *corev1.Pod, juid string) {
 			m.fail("C08", "create-while-deleting", "task %s created although the Job (as read) is being deleted", p.Name)
 		}
 		if vj.Status.Condition.Finished != nil {
-			m.fail("C08", "create-after-finished", "task %s created although the Job (as read) is finished (%s)", p.Name, vj.Status.Condition.Finished.Result)
+			sfx := ""
+			if m.regressedTaskView(m.w.current, j) {
+				sfx = ":pod-cache-behind-status" // this very sync is about to record a terminated task as unfinished again
+			}
+			m.fail("C08", "create-after-finished"+sfx, "task %s created although the Job (as read) is finished (%s)", p.Name, vj.Status.Condition.Finished.Result)
 		}
 		if vj.Status.StartTime.IsZero() {
 			m.fail("C07", "task-before-start", "task %s created for a Job that (as read) has not been started", p.Name)
 		}
 		if sat, unsat := m.viewDecided(m.w.current, vj); sat || unsat {
+			if staleSuffix == "" && m.regressedTaskView(m.w.current, j) {
+				staleSuffix = ":pod-cache-behind-status"
+			}
 			m.fail("C08", "create-after-complete"+staleSuffix, "task %s created although the strategy was already decided in what the reconcile read (satisfied=%v unsatisfiable=%v)", p.Name, sat, unsat)
 		}
 	}
